@@ -29,6 +29,15 @@ ENTROPY_BUILTINS = {"id", "hash", "input", "vars", "globals", "locals"}
 CACHE_DECORATORS = {"functools.cache", "functools.lru_cache", "functools.cached_property", "cache", "lru_cache"}
 
 
+def _total_order_sort(call) -> bool:
+    """sorted(x) / x.sort() without a key (or with key=None): distinct elements never compare equal, so the result does not
+    depend on the input order.  With a key, equal keys keep the input order (the sort is stable)."""
+    for k in call.keywords:
+        if k.arg == "key" and not (isinstance(k.value, ast.Constant) and k.value.value is None):
+            return False
+    return True
+
+
 class Finding:
     def __init__(self, kind, fn, node, what, key):
         self.kind, self.fn, self.node, self.what, self.key = kind, fn, node, what, key
@@ -60,10 +69,14 @@ class OrderTaint:
                 env[p] = k
         sorted_inplace = set()
         for n in own_nodes(fi.node):
-            if isinstance(n, ast.Call) and isinstance(n.func, ast.Attribute) and n.func.attr == "sort" and isinstance(n.func.value, ast.Name):
+            # sorting fixes the order only if distinct elements can never tie: no key function (a key such as str.casefold or
+            # len maps distinct names to equal keys, and ties keep the - arbitrary - input order)
+            if isinstance(n, ast.Call) and isinstance(n.func, ast.Attribute) and n.func.attr == "sort" and isinstance(n.func.value, ast.Name) and \
+                    _total_order_sort(n):
                 sorted_inplace.add(n.func.value.id)
             if isinstance(n, ast.Assign) and isinstance(n.targets[0], ast.Subscript) and isinstance(n.targets[0].value, ast.Name) and \
-                    isinstance(n.targets[0].slice, ast.Slice) and isinstance(n.value, ast.Call) and common.is_name(n.value.func, "sorted"):
+                    isinstance(n.targets[0].slice, ast.Slice) and isinstance(n.value, ast.Call) and common.is_name(n.value.func, "sorted") and \
+                    _total_order_sort(n.value):
                 sorted_inplace.add(n.targets[0].value.id)    # x[:] = sorted(x)
         changed = True
         it = 0
@@ -145,7 +158,9 @@ class OrderTaint:
             if d in ("set", "frozenset"):
                 return U
             if d == "sorted":
-                return ""
+                if _total_order_sort(e):
+                    return ""
+                return T if (e.args and self.kind(fi, e.args[0], env)) else ""
             if d in FS_ENUMERATORS:
                 return T
             if d in ("list", "tuple", "reversed", "enumerate", "iter") and e.args:
